@@ -672,6 +672,20 @@ func c11History(t *testing.T, r *kit.Run, hi int, h *history, p *plan, ao annOpt
 	default:
 		o.Probe("commit-time-regime")
 	}
+	if h.dates == "late" || h.dates == "straddling" {
+		o.Probe("no-committed-values-on-or-after-2012-09-12")
+		for _, pv := range h.parents {
+			for _, m := range pv.mems {
+				if h.parent.typ == tRel && m.k.typ == tRel && !pv.hasCommit {
+					for _, v := range h.kids[m.k] {
+						if v.upload == pv.upload && v.ts.After(pv.ts) && !v.ts.Before(osm.CommitInfoStart) {
+							o.Probe("late-sub-relation-version-after-its-parent-in-one-changeset")
+						}
+					}
+				}
+			}
+		}
+	}
 	if h.parent.typ == tRel {
 		o.Probe("relation-parent")
 	}
